@@ -132,6 +132,35 @@ pub fn run_entry(entry: &str, text: &str, fen: &str, stats: &mut Stats) -> Check
                 Err(e) => fail!("from_uci_list refused the chain's own UCI text {:?}: {}", t, e),
             }
             let _ = MoveChain::from_uci_list(b, text).map(|c| c.len());
+            // Follow the library's own idea of the game up to three plies further, then take every move the UCI reader
+            // returns in the final position through value -> SAN text -> value: a value that a parser entry point has
+            // produced (the chain, the move) must be formattable and read back as itself.
+            let mut h = text.bytes().fold(0xcbf2_9ce4_8422_2325u64, |a, c| (a ^ c as u64).wrapping_mul(0x100_0000_01b3));
+            for _ in 0..3 {
+                let l = owlchess::movegen::legal::gen_all(chain.last());
+                if l.is_empty() {
+                    break;
+                }
+                let m = l[(h % l.len() as u64) as usize];
+                h = crate::gen::splitmix(h);
+                if chain.push(m).is_err() {
+                    break;
+                }
+            }
+            let last = chain.last().clone();
+            for m in owlchess::movegen::legal::gen_all(&last).iter() {
+                let ut = m.to_string();
+                if let Ok(v) = Move::from_uci_legal(&ut, &last) {
+                    ensure!(Move::from_uci_legal(&v.to_string(), &last) == Ok(v), "after list {:?}: UCI text of the move read from {:?} does not read back", text, ut);
+                    match v.san(&last) {
+                        Ok(sv) => {
+                            let st = sv.to_string();
+                            ensure!(Move::from_san(&st, &last) == Ok(v), "after list {:?} (+ up to 3 plies) in {}: move read from {:?} is written {:?}, which does not read back as the same move", text, last.as_fen(), ut, st);
+                        }
+                        Err(e) => fail!("after list {:?} (+ up to 3 plies) in {}: the move read from {:?} cannot be written in SAN: {}", text, last.as_fen(), ut, e),
+                    }
+                }
+            }
         }
         "coord" => {
             if let Ok(c) = Coord::from_str(text) {
@@ -523,9 +552,10 @@ pub fn property() -> Property {
                (one position recurring 33,000-66,000 times) and megabyte texts; exhaustive: every string of length <= 3 over a 25-symbol \
                alphabet (incl. multi-byte) for every entry point. Oracle: no panic (catch_unwind; aborts attributed by the panic hook in the \
                checked build) and for every Ok(v): parse(format(v)) == Ok(v); for UCI lists the chain rebuilt from its own UCI text is \
-               equal and the error position equals the number of moves pushed. Non-trivial = accepted, or rejected beyond the first-line \
+               equal, the error position equals the number of moves pushed, and after up to three further plies chosen from the library's own \
+               legal list every move the UCI reader returns in the final position survives value -> SAN text -> value. Non-trivial = accepted, or rejected beyond the first-line \
                length/emptiness checks, or non-ASCII; distinct by (entry, text, position). generated_positions: the position-dependent entry points in \
-               generated positions (19 sources) with texts aimed at the position: UCI of pseudo-legal moves legal or not, reference SAN and \
+               generated positions (20 sources) with texts aimed at the position: UCI of pseudo-legal moves legal or not, reference SAN and \
                two-file pawn-capture forms, UCI lists that continue after an illegal token as if it had been played (taking the king when \
                possible), each also mutated; same oracle.",
         assumptions: &["panics are observed through catch_unwind; non-unwinding aborts through the panic hook + parent process"],
